@@ -24,18 +24,23 @@ package liteclient
 // Connection.reader) because the library offers no way to inject a net.Conn.
 //
 // Bound (quick / thorough); every case is one fresh connection with a fresh server key:
-//   1 coalesced: confirmation + k packets in ONE Write, k in {1,2,3,5,8} / 1..16, three size profiles, pipe and tcp
-//   2 cuts: stream confirmation + payload sizes [0 1 37 300 5] cut in two at every position 1..200 / every position of
-//     the stream (pipe); 1-byte writes 2 / 6; three random segments 60 / 600; random segment sizes (max segment drawn
-//     from {2,5,17,70,500,5000}) 60 / 600 with 1..6 packets of random profile; tcp: 13 / 70 cut positions, one 1-byte
-//     run, 5 / 30 random
-//   3 back to back: payload sizes 0..2000 step 3 / every size, ascending, descending / + shuffled, segments random up to
-//     3000 bytes and up to 64 bytes (sizes 0..300) / up to 100 bytes (all sizes); tcp in 64 KiB writes, step 7 / all
-//   4 client->server: Connection.Send of the same payload lists; the server reads handshake request + packets through
-//     a reader that returns at most the rest of the current segment: two segments at every position 1..456 / every
-//     position, 1-byte reads 2 / 6, random 60 / 600, back-to-back sizes 0..2000 step 7 / all; tcp 13 / 70 + 5 / 30
+//   1 coalesced: confirmation + k packets in ONE Write, k in {1,2,3,5,8} / 1..16, three size profiles (0..8, 0..120,
+//     {0,1,3,4,59,60,63,64,65,255,1000,2000,4028,4029,5000}), pipe and tcp (tcp k <= 12)
+//   2 cuts (pipe, exact): stream = confirmation + payload sizes [0 1 37 300 5] cut in two at EVERY position of the
+//     stream (751 bytes) / also for [64 0 0 1000], [4028 1], [2000 2000 3]; two cuts a<b among 24 landmark positions of
+//     the first 140 bytes / all pairs a<b<=140; 1-byte writes 2 / 6 streams; three random segments 150 / 3000; random
+//     segment sizes (max segment from {2,5,17,70,500,5000}) 150 / 3000, each with 1..6 packets of a random profile.
+//     tcp (best effort, 300 us between segments): 13 / 70 cut positions, one 1-byte run, 5 / 30 random
+//   3 back to back: payload sizes 0..2000 step 3 / every size: ascending and descending (/ + shuffled) with random
+//     segments up to 3000 bytes, / ascending with segments up to 100 bytes and in one Write; sizes 0..300 with segments
+//     up to 64 bytes and in one Write; tcp in 64 KiB writes with sizes step 7 / all, and 0..300 in one Write
+//   4 client->server: Connection.Send of such payload lists; the server reads the 256-byte request + the frames through
+//     a reader that returns at most the rest of the current segment: two segments at EVERY position of the 1007-byte
+//     stream / also for the other three lists; two cuts among 24 landmarks / all pairs in 236..396; 1-byte reads 2 / 6;
+//     random 150 / 3000; back-to-back sizes 0..2000 step 7 / all (pipe twice, tcp once); tcp: 13 / 70 cuts, 1-byte
+//     reads, 5 / 30 random
 // Payloads are compared only after ALL packets of a connection were received (a payload must not change when later
-// packets arrive). Waits are limited to 5 s each; a sub-test stops after 3 failing cases.
+// packets arrive). Waits are limited to 4 s each; a sub-test skips the remaining cases of a transport after 2 failing cases on it.
 
 import (
 	"bytes"
@@ -61,7 +66,7 @@ import (
 	"time"
 )
 
-const c11bWait = 5 * time.Second
+const c11bWait = 4 * time.Second
 
 func c11bSeed() int64 {
 	if v, err := strconv.ParseInt(os.Getenv("VERIF_SEED"), 10, 64); err == nil {
@@ -80,10 +85,12 @@ type c11bFails struct {
 	byCause map[string][]string
 	count   map[string]int
 	known   []string
+
+	perTransport map[string]int
 }
 
 func c11bNewFails(known ...string) *c11bFails {
-	return &c11bFails{byCause: map[string][]string{}, count: map[string]int{}, known: known}
+	return &c11bFails{byCause: map[string][]string{}, count: map[string]int{}, known: known, perTransport: map[string]int{}}
 }
 
 func (f *c11bFails) add(cause, format string, args ...any) {
@@ -99,10 +106,18 @@ func (f *c11bFails) add(cause, format string, args ...any) {
 	}
 }
 
-func (f *c11bFails) tooMany(cause string) bool {
+// tooMany: a sub-test stops running cases of a transport after 2 failures on it (every failure may cost a timeout).
+func (f *c11bFails) tooMany(cause, transport string) bool {
 	f.mu.Lock()
 	defer f.mu.Unlock()
-	return f.count[cause] >= 3
+	return f.perTransport[cause+"/"+transport] >= 2
+}
+
+func (f *c11bFails) addT(cause, transport, format string, args ...any) {
+	f.mu.Lock()
+	f.perTransport[cause+"/"+transport]++
+	f.mu.Unlock()
+	f.add(cause, format, args...)
 }
 
 func (f *c11bFails) report(t *testing.T) {
@@ -124,7 +139,7 @@ func (f *c11bFails) report(t *testing.T) {
 			if f.count[k] == 0 {
 				return
 			}
-			t.Errorf("%d failing case(s) (the sub-test stops after 3); first %d:", f.count[k], len(f.byCause[k]))
+			t.Errorf("%d failing case(s) (cases of a transport are skipped after 2 failures on it); first %d:", f.count[k], len(f.byCause[k]))
 			for _, m := range f.byCause[k] {
 				t.Errorf("  %s", m)
 			}
@@ -600,7 +615,7 @@ func (h *c11bH) nonce() []byte {
 // runDown: the server writes confirmation + one frame per payload size in the given segments; every payload must come
 // out of Connection.Responses(), in order.
 func (h *c11bH) runDown(cause, key, transport string, sizes []int, seg func(total int) []int, gap time.Duration) {
-	if h.fails.tooMany(cause) {
+	if h.fails.tooMany(cause, transport) {
 		return
 	}
 	h.cases++
@@ -616,7 +631,7 @@ func (h *c11bH) runDown(cause, key, transport string, sizes []int, seg func(tota
 		key, h.seed, transport, c11bSizesDesc(sizes), c11bSegDesc(segs))
 	srv, dialed, done, err := h.establish(transport, nil)
 	if err != nil {
-		h.fails.add(cause, "%s: %v", desc, err)
+		h.fails.addT(cause, transport, "%s: %v", desc, err)
 		return
 	}
 	ok := false
@@ -633,12 +648,12 @@ func (h *c11bH) runDown(cause, key, transport string, sizes []int, seg func(tota
 	select {
 	case d := <-dialed:
 		if d.err != nil {
-			h.fails.add(cause, "%s: client handshake failed: %v", desc, d.err)
+			h.fails.addT(cause, transport, "%s: client handshake failed: %v", desc, d.err)
 			return
 		}
 		conn = d.conn
 	case <-time.After(c11bWait):
-		h.fails.add(cause, "%s: hang: the client handshake did not return within %v", desc, c11bWait)
+		h.fails.addT(cause, transport, "%s: hang: the client handshake did not return within %v", desc, c11bWait)
 		return
 	}
 	var got [][]byte
@@ -656,28 +671,28 @@ func (h *c11bH) runDown(cause, key, transport string, sizes []int, seg func(tota
 	}
 	for i := range got {
 		if !bytes.Equal(got[i], payloads[i]) {
-			h.fails.add(cause, "%s: packet %d of %d on Responses() has payload %s, sent %s", desc, i, len(payloads), c11bHex(got[i]), c11bHex(payloads[i]))
+			h.fails.addT(cause, transport, "%s: packet %d of %d on Responses() has payload %s, sent %s", desc, i, len(payloads), c11bHex(got[i]), c11bHex(payloads[i]))
 			return
 		}
 	}
 	if len(got) < len(payloads) {
-		h.fails.add(cause, "%s: hang: only %d of %d packets arrived on Responses() within %v (those that arrived were right); next expected %s",
+		h.fails.addT(cause, transport, "%s: hang: only %d of %d packets arrived on Responses() within %v (those that arrived were right); next expected %s",
 			desc, len(got), len(payloads), c11bWait, c11bHex(payloads[len(got)]))
 		return
 	}
 	select {
 	case err := <-werr:
 		if err != nil {
-			h.fails.add(cause, "%s: %v", desc, err)
+			h.fails.addT(cause, transport, "%s: %v", desc, err)
 			return
 		}
 	case <-time.After(c11bWait):
-		h.fails.add(cause, "%s: hang: all packets delivered but the server's write did not finish", desc)
+		h.fails.addT(cause, transport, "%s: hang: all packets delivered but the server's write did not finish", desc)
 		return
 	}
 	select {
 	case p := <-conn.Responses():
-		h.fails.add(cause, "%s: an extra packet was delivered after the %d sent: %s", desc, len(payloads), c11bHex(p.Payload))
+		h.fails.addT(cause, transport, "%s: an extra packet was delivered after the %d sent: %s", desc, len(payloads), c11bHex(p.Payload))
 		return
 	default:
 	}
@@ -687,7 +702,7 @@ func (h *c11bH) runDown(cause, key, transport string, sizes []int, seg func(tota
 // runUp: the client Sends one packet per payload size; the server reads request + frames through the read schedule and
 // must decrypt exactly these payloads, in order.
 func (h *c11bH) runUp(cause, key, transport string, sizes []int, seg func(total int) []int) {
-	if h.fails.tooMany(cause) {
+	if h.fails.tooMany(cause, transport) {
 		return
 	}
 	h.cases++
@@ -703,7 +718,7 @@ func (h *c11bH) runUp(cause, key, transport string, sizes []int, seg func(total 
 		key, h.seed, transport, c11bSizesDesc(sizes), c11bSegDesc(sched))
 	srv, dialed, done, err := h.establish(transport, sched)
 	if err != nil {
-		h.fails.add(cause, "%s: %v", desc, err)
+		h.fails.addT(cause, transport, "%s: %v", desc, err)
 		return
 	}
 	ok := false
@@ -721,12 +736,12 @@ func (h *c11bH) runUp(cause, key, transport string, sizes []int, seg func(total 
 	select {
 	case d := <-dialed:
 		if d.err != nil {
-			h.fails.add(cause, "%s: client handshake failed: %v", desc, d.err)
+			h.fails.addT(cause, transport, "%s: client handshake failed: %v", desc, d.err)
 			return
 		}
 		conn = d.conn
 	case <-time.After(c11bWait):
-		h.fails.add(cause, "%s: hang: the client handshake did not return within %v", desc, c11bWait)
+		h.fails.addT(cause, transport, "%s: hang: the client handshake did not return within %v", desc, c11bWait)
 		return
 	}
 	serr := make(chan error, 1)
@@ -752,27 +767,27 @@ func (h *c11bH) runUp(cause, key, transport string, sizes []int, seg func(total 
 		select {
 		case r, open := <-in:
 			if !open {
-				h.fails.add(cause, "%s: the server's stream ended before packet %d of %d", desc, i, len(payloads))
+				h.fails.addT(cause, transport, "%s: the server's stream ended before packet %d of %d", desc, i, len(payloads))
 				return
 			}
 			if r.err != nil {
-				h.fails.add(cause, "%s: packet %d of %d: the server cannot decode the client's stream: %v", desc, i, len(payloads), r.err)
+				h.fails.addT(cause, transport, "%s: packet %d of %d: the server cannot decode the client's stream: %v", desc, i, len(payloads), r.err)
 				return
 			}
 			if !bytes.Equal(r.payload, payloads[i]) {
-				h.fails.add(cause, "%s: packet %d of %d reached the server with payload %s, Send was given %s", desc, i, len(payloads), c11bHex(r.payload), c11bHex(payloads[i]))
+				h.fails.addT(cause, transport, "%s: packet %d of %d reached the server with payload %s, Send was given %s", desc, i, len(payloads), c11bHex(r.payload), c11bHex(payloads[i]))
 				return
 			}
 		case <-time.After(c11bWait):
 			select {
 			case err := <-serr:
 				if err != nil {
-					h.fails.add(cause, "%s: %v", desc, err)
+					h.fails.addT(cause, transport, "%s: %v", desc, err)
 					return
 				}
-				h.fails.add(cause, "%s: hang: every Send returned nil but packet %d of %d did not reach the server within %v", desc, i, len(payloads), c11bWait)
+				h.fails.addT(cause, transport, "%s: hang: every Send returned nil but packet %d of %d did not reach the server within %v", desc, i, len(payloads), c11bWait)
 			default:
-				h.fails.add(cause, "%s: hang: packet %d of %d did not reach the server within %v (Send still blocked)", desc, i, len(payloads), c11bWait)
+				h.fails.addT(cause, transport, "%s: hang: packet %d of %d did not reach the server within %v (Send still blocked)", desc, i, len(payloads), c11bWait)
 			}
 			return
 		}
@@ -780,11 +795,11 @@ func (h *c11bH) runUp(cause, key, transport string, sizes []int, seg func(total 
 	select {
 	case err := <-serr:
 		if err != nil {
-			h.fails.add(cause, "%s: %v", desc, err)
+			h.fails.addT(cause, transport, "%s: %v", desc, err)
 			return
 		}
 	case <-time.After(c11bWait):
-		h.fails.add(cause, "%s: hang: the server received every packet but Send did not return", desc)
+		h.fails.addT(cause, transport, "%s: hang: the server received every packet but Send did not return", desc)
 		return
 	}
 	ok = true
@@ -910,6 +925,25 @@ const c11bGap = 300 * time.Microsecond
 
 // ---------------------------------------------------------------------------------------------------------------------
 
+func c11bTwoCuts(a, b int) func(int) []int {
+	return func(total int) []int {
+		if b >= total {
+			return c11bCutAt(a)(total)
+		}
+		return []int{a, b - a, total - b}
+	}
+}
+
+func c11bStreamLen(first int, sizes []int) int {
+	for _, n := range sizes {
+		first += 68 + n
+	}
+	return first
+}
+
+// base payload size lists whose streams are cut at every position (quick: the first only)
+var c11bBases = [][]int{{0, 1, 37, 300, 5}, {64, 0, 0, 1000}, {4028, 1}, {2000, 2000, 3}}
+
 func TestVerifStandin_C11_HandshakeServerToClient(t *testing.T) {
 	const (
 		coalesced = "rc_handshake_coalesced_packets"
@@ -936,20 +970,28 @@ func TestVerifStandin_C11_HandshakeServerToClient(t *testing.T) {
 	}
 
 	// 2. the same kind of stream cut at every position / at random positions
-	baseTotal := 68
-	for _, n := range c11bBase {
-		baseTotal += 68 + n
-	}
-	lastCut := 200
+	bases := c11bBases[:1]
 	if thorough {
-		lastCut = baseTotal - 1
+		bases = c11bBases
 	}
-	for k := 1; k <= lastCut; k++ {
-		h.runDown(cuts, fmt.Sprintf("cut/pipe/at=%d", k), "pipe", c11bBase, c11bCutAt(k), 0)
+	for bi, base := range bases {
+		for k := 1; k < c11bStreamLen(68, base); k++ {
+			h.runDown(cuts, fmt.Sprintf("cut/pipe/base%d/at=%d", bi, k), "pipe", base, c11bCutAt(k), 0)
+		}
 	}
-	nOnes, nRand := 2, 60
+	// two cuts inside confirmation + first frame
+	marks := []int{1, 2, 3, 4, 5, 35, 36, 37, 67, 68, 69, 70, 71, 72, 73, 103, 104, 105, 135, 136, 137, 138, 139, 140}
 	if thorough {
-		nOnes, nRand = 6, 600
+		marks = c11bRange(1, 140, 1)
+	}
+	for i, a := range marks {
+		for _, b := range marks[i+1:] {
+			h.runDown(cuts, fmt.Sprintf("two/pipe/at=%d,%d", a, b), "pipe", c11bBase, c11bTwoCuts(a, b), 0)
+		}
+	}
+	nOnes, nRand := 2, 150
+	if thorough {
+		nOnes, nRand = 6, 3000
 	}
 	for i := 0; i < nOnes; i++ {
 		sz := c11bBase
@@ -1008,20 +1050,28 @@ func TestVerifStandin_C11_HandshakeClientToServer(t *testing.T) {
 	h := c11bNewH(t, 2, up)
 	thorough := c11bThorough()
 
-	baseTotal := 256
-	for _, n := range c11bBase {
-		baseTotal += 68 + n
-	}
-	lastCut := 456
+	bases := c11bBases[:1]
 	if thorough {
-		lastCut = baseTotal - 1
+		bases = c11bBases
 	}
-	for k := 1; k <= lastCut; k++ {
-		h.runUp(up, fmt.Sprintf("cut/pipe/at=%d", k), "pipe", c11bBase, c11bCutAt(k))
+	for bi, base := range bases {
+		for k := 1; k < c11bStreamLen(256, base); k++ {
+			h.runUp(up, fmt.Sprintf("cut/pipe/base%d/at=%d", bi, k), "pipe", base, c11bCutAt(k))
+		}
 	}
-	nOnes, nRand, nTCP := 2, 60, 5
+	// two cuts around the end of the request and the first frame
+	marks := []int{1, 31, 32, 33, 63, 64, 65, 95, 96, 97, 255, 256, 257, 259, 260, 261, 291, 292, 293, 323, 324, 325, 327, 328}
 	if thorough {
-		nOnes, nRand, nTCP = 6, 600, 30
+		marks = c11bRange(236, 396, 1)
+	}
+	for i, a := range marks {
+		for _, b := range marks[i+1:] {
+			h.runUp(up, fmt.Sprintf("two/pipe/at=%d,%d", a, b), "pipe", c11bBase, c11bTwoCuts(a, b))
+		}
+	}
+	nOnes, nRand, nTCP := 2, 150, 5
+	if thorough {
+		nOnes, nRand, nTCP = 6, 3000, 30
 	}
 	for i := 0; i < nOnes; i++ {
 		sz := c11bBase
